@@ -251,7 +251,15 @@ def check_ellipse(fx, R):
             R.holds('K4', 'Ellipse(covariance):axes', 'major <- singular value 0, minor <- 1, orientation <- column 0 of U, radii sqrt(value)*sigma', loc, 'E-SIB')
         else:
             sw = maj == ('*', ('sqrt', val(1)), 'sigmaScale') and mnr == ('*', ('sqrt', val(0)), 'sigmaScale')
-            if sw:
+            def kidx(x):
+                for k_ in (0, 1):
+                    if x == ('*', ('sqrt', val(k_)), 'sigmaScale'):
+                        return k_
+                return None
+            km, kn = kidx(maj), kidx(mnr)
+            if km is not None and kn is not None and (km, kn) != (0, 1) and not sw:
+                R.violated('K4', 'Ellipse(covariance):axes', 'major radius uses singular value %d and minor radius singular value %d; they must be values 0 and 1 (decreasing order)' % (km, kn), loc, 'E-SIB')
+            elif sw:
                 R.violated('K4', 'Ellipse(covariance):axes', 'major radius is taken from singular value 1 and minor from 0 (decreasing order: 0 is the largest)', loc, 'E-SIB')
             elif ori in (('atan2', vec_(1, 1), vec_(0, 1)),) and maj == ('*', ('sqrt', val(0)), 'sigmaScale'):
                 R.violated('K4', 'Ellipse(covariance):axes', 'orientation is read from column 1 of U while the major radius uses singular value 0', loc, 'E-SIB')
